@@ -19,6 +19,12 @@ import (
 	"github.com/thanos-community/promql-engine/execution/model"
 )
 
+// The largest and smallest float64 which can be converted to an int64 without overflow.
+const (
+	maxInt64 = 9223372036854774784.0
+	minInt64 = -9223372036854775808.0
+)
+
 type kAggregate struct {
 	next    model.VectorOperator
 	paramOp model.VectorOperator
@@ -107,7 +113,7 @@ func (a *kAggregate) Next(ctx context.Context) ([]model.StepVector, error) {
 	}
 	for i := range in {
 		// Same check as Prometheus: the parameter must be convertible to int64.
-		if !(a.params[i] <= math.MaxInt64 && a.params[i] >= math.MinInt64) {
+		if !(a.params[i] <= maxInt64 && a.params[i] >= minInt64) {
 			return nil, errors.Newf("Scalar value %v overflows int64", a.params[i])
 		}
 	}
